@@ -23,8 +23,17 @@ pub fn mapping_m1() -> Vec<Line> {
 pub fn mapping_m2() -> Vec<Line> {
     vec![class("q.Other", "q.o"), method(Some((1, 3)), None, "x", "", Orig::None, "y"), class("q.E", "a.EE"), class("q.B", "a")]
 }
+/// M1 plus a class whose method `k` is a 40-deep inline group at line 1
+pub fn mapping_m3() -> Vec<Line> {
+    let mut v = mapping_m1();
+    v.push(class("deep.Deep", "d.D"));
+    for i in 0..40u64 {
+        v.push(method(Some((1, 1)), if i % 2 == 0 { Some("deep.Lib") } else { None }, leak(&format!("lvl{}", i)), "", Orig::S(100 + i), "k"));
+    }
+    v
+}
 pub fn mappings() -> Vec<(&'static str, Vec<Line>)> {
-    vec![("empty", vec![]), ("M1 (inline group + sourceFile)", mapping_m1()), ("M2 (knows none of the names)", mapping_m2())]
+    vec![("empty", vec![]), ("M1 (inline group + sourceFile)", mapping_m1()), ("M2 (knows none of the names)", mapping_m2()), ("M3 (M1 + 40-deep inline group)", mapping_m3())]
 }
 
 // ---------------------------------------------------------------------------------------------
@@ -143,7 +152,7 @@ pub fn model_text<'a>(model: &'a Model, text: &'a str) -> String {
     out
 }
 
-pub const SHAPES: [&str; 24] = [
+pub const SHAPES: [&str; 29] = [
     "a.E: boom",
     "a.E",
     "x.Unknown: msg",
@@ -168,7 +177,25 @@ pub const SHAPES: [&str; 24] = [
     "Caused by: a.E",
     "caused by: a.E: lower case",
     "Caused by:  a.E: two blanks",
+    // reading I4: the classifier trims like str::trim (Unicode White_Space), as both implementations do
+    "\u{a0}\u{a0}at a.b.m(F.java:2)",
+    "\u{3000}at a.b.m(F.java:5)\u{2028}",
+    "\u{a0}a.E: nbsp",
+    "    at app//a.b.m(F.java:2)",
+    "    at java.base/x.Unknown.m(F.java:2)",
 ];
+
+/// long lines (beyond any 1 KiB guard): appended as extra shapes to texts of <= 2 other lines
+pub fn long_shapes() -> Vec<String> {
+    let long = "m".repeat(1100);
+    vec![
+        format!("a.E: {}", long),
+        format!("Caused by: a.E: {}", long),
+        format!("    at a.b.m({}.java:2)", long),
+        format!("    at x.Unknown.{}(F.java:2)", long),
+        format!("{} 70000-byte noise", "z".repeat(70000)),
+    ]
+}
 pub const TEXT_TERMS: [(&str, &str, bool); 3] = [("LF", "\n", true), ("CRLF", "\r\n", true), ("LF-nofinal", "\n", false)];
 
 struct Built {
@@ -246,11 +273,28 @@ fn text_dfs(seq: &mut Vec<usize>, left: usize, builts: &[Built], subs: &[(&dyn S
                     text.push_str(sep);
                 }
             }
-            for (bi, b) in builts.iter().enumerate() {
+            for (bi, b) in builts.iter().enumerate().take(subs.len()) {
                 check_text(b, &text, subs[bi].0, subs[bi].1, acc);
             }
             if seq.len() == 3 && tn == "CRLF" {
                 acc.sample(2, || json!({"text": text, "terminator": tn, "mappings": builts.iter().map(|b| b.label).collect::<Vec<_>>()}));
+            }
+        }
+    }
+    if seq.len() <= 2 {
+        for l in long_shapes() {
+            for pos in 0..=seq.len() {
+                let mut parts: Vec<&str> = seq.iter().map(|&i| SHAPES[i]).collect();
+                parts.insert(pos, &l);
+                for (_, sep, fin) in TEXT_TERMS {
+                    let mut text = parts.join(sep);
+                    if fin {
+                        text.push_str(sep);
+                    }
+                    for (bi, b) in builts.iter().enumerate().take(subs.len()) {
+                        check_text(b, &text, subs[bi].0, subs[bi].1, acc);
+                    }
+                }
             }
         }
     }
@@ -268,7 +312,7 @@ pub fn run_c07(tier: Tier) -> i32 {
     let t = tier.thorough();
     let budget = Budget::new(if t { 14 * 60 } else { 50 });
     let depth = if t { 5 } else { 4 };
-    let mut work: Vec<Vec<usize>> = Vec::new();
+    let mut work: Vec<Vec<usize>> = vec![vec![]];
     for a in 0..SHAPES.len() {
         for b in 0..SHAPES.len() {
             work.push(vec![a, b]);
@@ -281,7 +325,7 @@ pub fn run_c07(tier: Tier) -> i32 {
         let mut abs: Vec<Aligned> = builts.iter().map(|_| Aligned::new(&[])).collect();
         let mut run = |subs: &[(&dyn Subj, &dyn Subj)]| {
             let mut seq = first.clone();
-            if first.len() == 1 {
+            if first.len() <= 1 {
                 text_dfs(&mut seq, 0, &builts, subs, acc, budget);
             } else {
                 text_dfs(&mut seq, depth - 2, &builts, subs, acc, budget);
@@ -296,7 +340,7 @@ pub fn run_c07(tier: Tier) -> i32 {
         prop: "C07",
         tier,
         level: "model_checking",
-        rule: format!("every text of 1..={} lines over 24 line shapes (throwables known/unknown with/without message, message containing ': ' and frame-like text, frames space/tab/trailing-blank indented that resolve to 2 / 1 / 0 frames, unknown method, unknown class, line outside every range, Native Method, Unknown Source, 'Caused by:' known/unknown/indented, '... n more', blank, 'at x(y:1)', non-ASCII) x 3 terminator policies (LF, CRLF, no final newline) x 3 mappings x {{mapper, cache}}; oracle = text model R12 with an independent line classifier. states = (text, mapping); distinct = distinct expected outputs; non-trivial = outputs that differ from the normalised input", depth),
+        rule: format!("every text of 1..={} lines over 29 line shapes (plus 5 long lines of 1.1 kB / 70 kB placed first, between and after <= 2 other shapes) (throwables known/unknown with/without message, message containing ': ' and frame-like text, frames space/tab/trailing-blank indented that resolve to 2 / 1 / 0 frames, unknown method, unknown class, line outside every range, Native Method, Unknown Source, 'Caused by:' known/unknown/indented, '... n more', blank, 'at x(y:1)', non-ASCII) x 3 terminator policies (LF, CRLF, no final newline) x 3 mappings x {{mapper, cache}}; oracle = text model R12 with an independent line classifier. states = (text, mapping); distinct = distinct expected outputs; non-trivial = outputs that differ from the normalised input", depth),
         bounds: json!({"lines": depth, "shapes": SHAPES, "terminators": ["LF","CRLF","LF without final newline"], "mappings": mappings().iter().map(|(l, m)| json!({"label":l,"text":esc(&print_file(m, Term::Lf))})).collect::<Vec<_>>()}),
         assumptions: vec!["lines are split like str::lines (LF, CR dropped only directly before LF)".into()],
         trusted_base: vec!["rustc/std (str::trim, str::parse::<usize>)".into(), "text model + line classifier in pgmc/src/props/e3.rs".into(), "reference model pgmc/src/model.rs".into()],
@@ -322,13 +366,18 @@ pub fn recheck_text(case: &Value) -> Vec<String> {
 // C08: typed traces (R13) and agreement with the text API
 
 const THROWABLES: [Option<(&str, Option<&str>)>; 5] = [None, Some(("a.E", Some("boom"))), Some(("a.E", None)), Some(("x.Unknown", Some("msg: with colon"))), Some(("x.Unknown", None))];
-const FRAMES: [(&str, &str, usize, Option<&str>); 5] = [
+const FRAMES: [(&str, &str, usize, Option<&str>); 8] = [
     ("a.b", "m", 2, Some("F.java")),
     ("a.b", "zz", 2, Some("F.java")),
     ("x.Unknown", "m", 2, Some("U.java")),
     ("a.b", "n", 7, Some("F.java")),
     // known class and method, line outside every range: does not resolve, must be kept
     ("a.b", "m", 99, Some("F.java")),
+    // class names carrying a module / loader prefix: unknown to the mapping, kept as they are
+    ("app//a.b", "m", 2, Some("F.java")),
+    ("java.base/x.Unknown", "m", 2, Some("U.java")),
+    // resolves to 40 frames with mapping M3 (deep inline group)
+    ("d.D", "k", 1, Some("D.java")),
 ];
 
 fn frame_seqs(max: usize, nframes: usize) -> Vec<Vec<usize>> {
@@ -451,15 +500,17 @@ pub fn run_c08(tier: Tier) -> i32 {
     // cause levels: quick uses the sub-family with <= 1 frame per cause level beyond depth 1
     let small_levels: Vec<(usize, usize)> = levels.iter().copied().filter(|(ti, fi)| *ti != 0 && fseqs[*fi].len() <= 1).collect();
     let cause_levels: Vec<(usize, usize)> = levels.iter().copied().filter(|(ti, _)| *ti != 0).collect();
+    // tiny pool for the deeper levels: {known with message, unknown with message} x {no frame, resolving, '/'-class, 40-deep}
+    let tiny_levels: Vec<(usize, usize)> = levels.iter().copied().filter(|(ti, fi)| (*ti == 1 || *ti == 3) && (fseqs[*fi].is_empty() || fseqs[*fi] == [0] || fseqs[*fi] == [5] || fseqs[*fi] == [7])).collect();
     let work: Vec<(usize, usize)> = levels.clone();
     let nlevels = levels.len();
     let acc = par_run(&work, &budget, |&(ti, fi), acc, budget| {
         let builts = build_all();
         let mut abs: Vec<Aligned> = vec![Aligned::new(&[]), Aligned::new(&[])];
         let (a1, a2) = abs.split_at_mut(1);
-        with_both(&builts[1].bytes, &mut a1[0], |m1, c1| {
+        with_both(&builts[3].bytes, &mut a1[0], |m1, c1| {
             with_both(&builts[2].bytes, &mut a2[0], |m2, c2| {
-                let subs: [(&Built, &dyn Subj, &dyn Subj); 2] = [(&builts[1], m1, c1), (&builts[2], m2, c2)];
+                let subs: [(&Built, &dyn Subj, &dyn Subj); 2] = [(&builts[3], m1, c1), (&builts[2], m2, c2)];
                 let top = mk_level(THROWABLES[ti], &fseqs[fi]);
                 let degenerate_top = top.exception.is_none() && top.frames.is_empty();
                 // chains: depth 0..=max_depth; the first cause level ranges over all cause levels, deeper ones over the small family
@@ -498,10 +549,10 @@ pub fn run_c08(tier: Tier) -> i32 {
                 let forty = &cause_levels[..cause_levels.len().min(40)];
                 if t {
                     // thorough: depth <= 3 with wide pools, then depth 4 with the narrow pool
-                    rec(&mut chain, &[&cause_levels, forty, &small_levels], &fseqs, &mut visit, budget);
-                    rec(&mut chain, &[&small_levels, &small_levels, &small_levels[..small_levels.len().min(8)], &small_levels[..small_levels.len().min(8)]], &fseqs, &mut visit, budget);
+                    rec(&mut chain, &[&cause_levels, forty, &tiny_levels], &fseqs, &mut visit, budget);
+                    rec(&mut chain, &[&small_levels, &tiny_levels, &tiny_levels, &tiny_levels], &fseqs, &mut visit, budget);
                 } else {
-                    rec(&mut chain, &[&small_levels, &small_levels, &small_levels], &fseqs, &mut visit, budget);
+                    rec(&mut chain, &[&small_levels, &tiny_levels, &tiny_levels], &fseqs, &mut visit, budget);
                 }
             })
         });
@@ -510,7 +561,7 @@ pub fn run_c08(tier: Tier) -> i32 {
         prop: "C08",
         tier,
         level: "model_checking",
-        rule: format!("every typed trace with a top level from {} levels (exception absent / known / unknown x message / none; 0..2 frames over 5 frame kinds: resolving to 2 frames, unknown method, unknown class, entry without lines, known method with a line outside every range) and cause chains of depth 0..={} (first cause level: {}; deeper levels: {} ) x 2 mappings x {{mapper, cache}}; oracle R13 (same depth, every throwable remapped-or-identical, every frame expanded-or-identical, order kept) and, for every trace, printed typed result == text API on the printed input. distinct = distinct expected traces; non-trivial = expected != input", nlevels, max_depth, if t { "all levels with an exception" } else { "levels with an exception and <= 1 frame" }, if t { "depth 2: the first 40 levels with an exception, depth 3: levels with <= 1 frame; plus depth-4 chains over the levels with <= 1 frame (8 of them at depths 3 and 4)" } else { "levels with an exception and <= 1 frame" }),
+        rule: format!("every typed trace with a top level from {} levels (exception absent / known / unknown x message / none; 0..2 frames over 8 frame kinds: resolving to 2 frames, unknown method, unknown class, entry without lines, known method with a line outside every range, two class names with a module prefix containing '/', a frame resolving to 40 frames) and cause chains of depth 0..={} (first cause level: {}; deeper levels: {} ) x 2 mappings x {{mapper, cache}}; oracle R13 (same depth, every throwable remapped-or-identical, every frame expanded-or-identical, order kept) and, for every trace, printed typed result == text API on the printed input. distinct = distinct expected traces; non-trivial = expected != input", nlevels, max_depth, if t { "all levels with an exception" } else { "levels with an exception and <= 1 frame" }, if t { "depth 2: the first 40 levels with an exception, depth 3: the 8-level pool {known, unknown} x {no frame, resolving, '/'-class, 40-deep}; plus depth-4 chains: first level <= 1 frame, then the 8-level pool" } else { "the 8-level pool {known, unknown} x {no frame, resolving, '/'-class, 40-deep}" }),
         bounds: json!({"top_levels": nlevels, "max_cause_depth": max_depth, "throwables": THROWABLES.iter().map(|t| format!("{:?}", t)).collect::<Vec<_>>(), "frames": FRAMES.iter().map(|f| format!("{:?}", f)).collect::<Vec<_>>()}),
         assumptions: vec!["canonical printed form: frames carry a file, cause levels carry an exception, the top level has an exception or a frame".into()],
         trusted_base: vec!["rustc/std".into(), "reference model pgmc/src/model.rs + model_typed in pgmc/src/props/e3.rs".into()],
@@ -553,6 +604,9 @@ fn rt_frames() -> Vec<(String, String, usize, Option<String>)> {
             }
         }
     }
+    // class names with a module / loader prefix (contain '/')
+    v.push(("java.base/j.l.T".to_string(), "m".to_string(), 1, Some("F.java".to_string())));
+    v.push(("app//a.b.C".to_string(), "<init>".to_string(), 0, Some("Unknown Source".to_string())));
     v
 }
 
@@ -686,7 +740,7 @@ pub fn run_c17(tier: Tier) -> i32 {
         prop: "C17",
         tier,
         level: "model_checking",
-        rule: format!("throwables: 4 classes (with $, non-ASCII, 'Caused') x 7 messages (none, plain, 'x: y', 'Caused by: z', 'at a.b(c:1)', non-ASCII, inner double space and parentheses) = {}; frames: 2 classes x 3 methods (m, <init>, non-ASCII) x 4 files (F.java, 'Unknown Source', '<unknown>', 'F(1).kt') x lines {{0,1,2^64-1}} = {}; traces: top-level exception present/absent x 0..2 frames (all first frames; second frame {}), one level with 20 frames, cause chains of depth 0..={} over a sub-family of cause levels; frames without file: text fix-point only. Oracle: parse(print(t)) == t and print(parse(print(t))) == print(t); single frames (3 indentations) and throwables likewise. distinct = distinct traces", nthr, nf, if t { "all" } else { "every 5th" }, max_depth),
+        rule: format!("throwables: 4 classes (with $, non-ASCII, 'Caused') x 7 messages (none, plain, 'x: y', 'Caused by: z', 'at a.b(c:1)', non-ASCII, inner double space and parentheses) = {}; frames (+ 2 whose class carries a module prefix containing '/'): 2 classes x 3 methods (m, <init>, non-ASCII) x 4 files (F.java, 'Unknown Source', '<unknown>', 'F(1).kt') x lines {{0,1,2^64-1}} = {}; traces: top-level exception present/absent x 0..2 frames (all first frames; second frame {}), one level with 20 frames, cause chains of depth 0..={} over a sub-family of cause levels; frames without file: text fix-point only. Oracle: parse(print(t)) == t and print(parse(print(t))) == print(t); single frames (3 indentations) and throwables likewise. distinct = distinct traces", nthr, nf, if t { "all" } else { "every 5th" }, max_depth),
         bounds: json!({"throwables": nthr, "frames": nf, "max_cause_depth": max_depth}),
         assumptions: vec!["frames carry a file (a None file prints as <unknown> and parses back as Some(\"<unknown>\"): only the text fix-point is checked for it)".into(), "cause levels carry an exception; the trace with neither exception nor frames is excluded (try_parse defines it as not a trace)".into()],
         trusted_base: vec!["rustc/std".into(), "PartialEq of StackTrace / StackFrame / Throwable".into()],
